@@ -115,9 +115,20 @@ pub proof fn lemma_sub_eq(t1: Seq<char>, i1: int, t2: Seq<char>, i2: int, a: int
 {
     let s1 = t1.subrange(i1, t1.len() as int);
     let s2 = t2.subrange(i2, t2.len() as int);
+    assert(s1.len() == t1.len() - i1);
+    assert(s2.len() == t2.len() - i2);
     assert(s1.len() == s2.len());
-    assert(t1.subrange(i1 + a, i1 + a + k) =~= s1.subrange(a, a + k));
-    assert(t2.subrange(i2 + a, i2 + a + k) =~= s2.subrange(a, a + k));
+    assert(i2 + a + k <= t2.len());
+    let u1 = t1.subrange(i1 + a, i1 + a + k);
+    let u2 = t2.subrange(i2 + a, i2 + a + k);
+    assert(u1.len() == k && u2.len() == k);
+    assert forall|j: int| 0 <= j < k implies u1[j] == u2[j] by {
+        assert(u1[j] == t1[i1 + a + j]);
+        assert(u2[j] == t2[i2 + a + j]);
+        assert(s1[a + j] == t1[i1 + a + j]);
+        assert(s2[a + j] == t2[i2 + a + j]);
+    }
+    assert(u1 =~= u2);
 }
 
 // a braced escape with the k digits of x (x < 16^k, x <= MAX_CHAR) reads back as x
